@@ -221,6 +221,38 @@ def gen_plan(rng, tier, index, config=None):
             r.shuffle(perm)
             steps.append({"op": "permute", "passes": passes, "perm": perm})
     steps.append({"op": "validate", "copy": "c0", "how": "each"})
+    # scripted scenarios that put the shared transaction into the in-flight states random histories rarely reach
+    scen = r.weighted([(None, 80), ("stale_front", 10), ("commit_sweep", 10)]) if config is None else None
+    ms = [j for j, inp in enumerate(inputs) if "multisig" in inp["kind"] and inp["m"] >= 2 and len(inp["keys"]) <= 6]
+    if scen == "stale_front" and ms and outputs:
+        # a later-listed key signs without committing to the outputs, an earlier-listed key signs ALL, an output changes
+        # (the earlier signature goes stale, the later one stays valid), then further passes run
+        j = r.pick(ms)
+        ks = inputs[j]["keys"]
+        late, early = ks[-1], ks[0]
+        others = [k for k in ks[1:-1]]
+        steps = [steps[0],
+                 {"op": "sign", "copy": "c0", "keys": [late], "supply": "dict", "hash_type": r.pick([2, 0x82, 3 if j < len(outputs) else 2]), "inputs": None},
+                 {"op": "sign", "copy": "c0", "keys": [early] + others[: inputs[j]["m"] - 2], "supply": r.pick(["dict", "wifs"]), "hash_type": 1, "inputs": None},
+                 {"op": "validate", "copy": "c0", "how": "each"},
+                 {"op": "tamper", "copy": "c0", "kind": r.pick(["out_value", "out_script", "out_add"]), "a": r.bits(16), "b": r.bits(16), "bit": r.below(8),
+                  "bytes": r.bytes(32).hex(), "val": 1 + (r.bits(8) | 1) * (0 if j < len(outputs) and False else 1)},
+                 {"op": "validate", "copy": "c0", "how": "each"},
+                 {"op": "sign", "copy": "c0", "keys": r.pick([[early], [early] + others, others or [early]]), "supply": "dict", "hash_type": r.pick([1, 1, 0x81]), "inputs": None},
+                 {"op": "validate", "copy": "c0", "how": "each"},
+                 {"op": "sign", "copy": "c0", "keys": list(ks), "supply": "dict", "hash_type": 1, "inputs": None},
+                 {"op": "validate", "copy": "c0", "how": "each"}]
+    elif scen == "commit_sweep":
+        # everything signed, then every kind of field change in turn, each followed by validation and a revert
+        steps = [steps[0], {"op": "sign", "copy": "c0", "keys": allkeys, "supply": "dict", "hash_type": r.pick(hts), "inputs": None},
+                 {"op": "validate", "copy": "c0", "how": "each"}]
+        for kind in ["version", "locktime", "outpoint", "sequence", "out_value", "out_script", "out_add", "out_remove", "out_swap",
+                     "unspent_value", "unspent_script", "sig_hashtype"]:
+            steps.append({"op": "tamper", "copy": "c0", "kind": kind, "a": r.bits(16), "b": r.bits(16), "bit": r.below(8),
+                          "bytes": r.bytes(32).hex(), "val": r.pick([1, -1, 1000])})
+            steps.append({"op": "validate", "copy": "c0", "how": "each"})
+            steps.append({"op": "revert", "copy": "c0"})
+        steps.append({"op": "validate", "copy": "c0", "how": "each"})
     backend = "pure" if (config is None and sigkind == "btc" and hd is None and r.chance(0.03)) else "native"
     if net == "GRS":
         # the GRS network object needs the groestlcoin_hash package (absent here); its Tx / Solver / SolutionChecker
@@ -237,7 +269,7 @@ def gen_plan(rng, tier, index, config=None):
                 st.pop("db_fault", None)
                 st.pop("clear_secrets", None)
     return {"world": NAME, "config": {"name": net + ("-hd" if hd else "") + ("-pure" if backend == "pure" else ""), "network": net,
-                                      "sig": sigkind, "keys": keys, "hd": hd, "backend": backend}, "steps": steps}
+                                      "sig": sigkind, "keys": keys, "hd": hd, "backend": backend, "scenario": scen}, "steps": steps}
 
 
 # ---------------------------------------------------------------------------------------------
